@@ -236,9 +236,20 @@ func homRun(c homCase) *pbt.Fail {
 	ca := pk.EncWithNonce(sint(a), snat(big.NewInt(2)))
 	cb := pk.EncWithNonce(sint(b), snat(big.NewInt(3)))
 	ra, rb := k.ref.Enc(a, big.NewInt(2)), k.ref.Enc(b, big.NewInt(3))
+	// the operands of a homomorphic operation are still the encryptions they were afterwards (the operation is applied to
+	// a Clone, as every caller in the library does)
+	operands := func() *pbt.Fail {
+		if ca.Nat().Big().Cmp(ra) != 0 || cb.Nat().Big().Cmp(rb) != 0 {
+			return pbt.Failf("operand-modified:"+c.Op, "a homomorphic operation on a Clone changed one of its operands")
+		}
+		return nil
+	}
 	switch c.Op {
 	case "add":
 		got := ca.Clone().Add(pk, cb)
+		if f := operands(); f != nil {
+			return f
+		}
 		want := k.ref.Add(ra, rb)
 		if got.Nat().Big().Cmp(want) != 0 {
 			return pbt.Failf("add-mismatch", "Add differs from ciphertext multiplication mod N^2")
@@ -257,6 +268,9 @@ func homRun(c homCase) *pbt.Fail {
 	case "mul":
 		s := c.K.val(k.ref)
 		got := ca.Clone().Mul(pk, sint(s))
+		if f := operands(); f != nil {
+			return f
+		}
 		want := k.ref.Mul(ra, s)
 		if want == nil {
 			return nil
